@@ -71,8 +71,9 @@ Definition is_inbox (n : str) : bool := str_eqb (to_upper n) INBOX.
     hierarchies — implied parents, renamed children — belong to C11) *)
 Definition flat_step (s : store) (o : op) : bool :=
   match o with
-  | OCreate n _ => negb (contains_byte n SLASH)
-  | ORename a b _ => negb (contains_byte b SLASH) && match children s a with [] => true | _ => false end
+  | OCreate n _ => negb (contains_byte (trim_suffix n [SLASH]) SLASH)
+  | ORename a b _ => negb (contains_byte b SLASH) && negb (sql_like (a ++ [SLASH; c_pct]) b)
+                     && match children s a with [] => true | _ => false end
   | _ => true
   end.
 
